@@ -157,6 +157,20 @@ if instrument.DEBUG:
     )
 
 
+def _expand_like(adj_sum_op, adj_prod_op, out_adj, operand, other):
+    """
+    The adjoint of ``operand`` in ``operand (+) other``: ``out_adj`` as a function
+    of all inputs of the sum. Discrete inputs of ``other`` that neither ``out_adj``
+    nor ``operand`` mention must appear in the message, so that the tape sums over
+    them (and counts their multiplicity) when it aggregates towards ``operand``.
+    """
+    missing = other.input_vars - out_adj.input_vars - operand.input_vars
+    if all(v.dtype == "real" for v in missing):
+        return out_adj
+    zero = to_funsor(ops.UNITS[adj_sum_op])  # annihilates adj_prod_op
+    return adj_sum_op(out_adj, adj_prod_op(other, zero))
+
+
 @adjoint_ops.register(
     Binary, AssociativeOp, AssociativeOp, Funsor, AssociativeOp, Funsor, Funsor
 )
@@ -166,7 +180,9 @@ def adjoint_binary(adj_sum_op, adj_prod_op, out_adj, op, lhs, rhs):
         rhs_adj = adj_prod_op(out_adj, lhs)
         return ((lhs, lhs_adj), (rhs, rhs_adj))
     elif op is adj_sum_op:
-        return ((lhs, out_adj), (rhs, out_adj))
+        lhs_adj = _expand_like(adj_sum_op, adj_prod_op, out_adj, lhs, rhs)
+        rhs_adj = _expand_like(adj_sum_op, adj_prod_op, out_adj, rhs, lhs)
+        return ((lhs, lhs_adj), (rhs, rhs_adj))
     raise ValueError("should not be here!")
 
 
@@ -258,7 +274,9 @@ def adjoint_contract(
     elif prod_op is adj_sum_op:
         if reduced_vars:
             raise NotImplementedError("TODO implement sum Contraction")
-        return ((lhs, out_adj), (rhs, out_adj))
+        lhs_adj = _expand_like(adj_sum_op, adj_prod_op, out_adj, lhs, rhs)
+        rhs_adj = _expand_like(adj_sum_op, adj_prod_op, out_adj, rhs, lhs)
+        return ((lhs, lhs_adj), (rhs, rhs_adj))
 
     raise ValueError("should not be here!")
 
